@@ -2,7 +2,12 @@
 Line-protocol driver for the C19 importer model (`Model/Import.lean`,
 `Model/ImportLex.lean`).  Same protocol as harness/c19.cpp:
 
-  svm <d|s> <c|r> <f64|f32> <dims> <batchSize> <X|S> <hex bytes or ->
+  svm|svmf <d|s> <c|r> <f64|f32> <dims> <batchSize> <X|S> <hex bytes or ->      (stream / file overloads)
+  csv <u|c|r> <f64|f32> <F|L> <nout> <sep> <comment> <maxB> <X|S> <hex>           (csvStringToData)
+  csvf <u|c|r> <f64|f32> <F|L> <nout> <sep> <comment> <maxB> <titleLines> <X|S> <hex>  (importCSV from a file)
+  csv1 <int|uint|f64|f32> <comment> <maxB> <X|S> <hex>                            (scalar readers)
+  xcsv <u|c|r> <f64|f32> <F|L> <nout> <sep> <sci> <width> <maxB> <n> <dim> <values…>   (exportCSV, then importCSV)
+  xsvm <d|s> <c|r> <f64|f32> <dims> <bs> <oneMinusOne> <sort> <append> <n> <dim> <elements…>  (exportSparseData, then importSparseData)
 
 prints the predicted observation
   ok shape=.. lshape=.. batches=[..] labels=[..] rows=[..] | shark-exception |
@@ -14,6 +19,7 @@ and consistent (`repaired_eq_current`).
 import SharkVerif.Model.Import
 import SharkVerif.Model.ImportLex
 import SharkVerif.Model.ImportCsv
+import SharkVerif.Model.ExportFmt
 open SharkVerif.Import
 
 def hexVal (c : Char) : Nat :=
@@ -99,46 +105,89 @@ def rtVerdict (o : Outcome Val) (rows : List (Row Val)) (labels : Labels Val) : 
   | .error => "rt shark-exception"
   | o => "rt " ++ showOutcome false o
 
+def hexDigit (n : Nat) : Char := if n < 10 then Char.ofNat (48 + n) else Char.ofNat (87 + n)
+def hexOf (s : List Char) : String :=
+  if s.isEmpty then "-" else String.ofList (s.flatMap fun c => [hexDigit (c.toNat / 16 % 16), hexDigit (c.toNat % 16)])
+
+/-- a value token of the export ops: `[-]m^e` (= ± m·2^e), `nan`, `inf`, `-inf` -/
+def parseVal (t : String) : Val :=
+  if t == "nan" then .nan else if t == "inf" then .inf false else if t == "-inf" then .inf true
+  else
+    let cs := t.toList
+    let neg := cs.head? == some '-'
+    let body : String := String.ofList (if neg then cs.drop 1 else cs)
+    match body.splitOn "^" with
+    | [m, e] => (match m.toNat?, e.toInt? with
+      | some m, some e => Val.mk neg m e
+      | _, _ => .nan)
+    | _ => .nan
+
+def chunks {α} (k : Nat) (l : List α) : List (List α) :=
+  if k = 0 then [] else
+  let rec go : Nat → List α → List (List α)
+    | 0, _ => []
+    | f+1, l => if l.isEmpty then [] else l.take k :: go f (l.drop k)
+  go (l.length + 1) l
+
+/-- elements of an `xsvm` op: dense `dim` values, sparse `k (index value)*`; then the label token -/
+def parseElems (sparse : Bool) (dim : Nat) : Nat → List String → Option (List (List (Nat × Val) × String))
+  | 0, [] => some []
+  | 0, _ => none
+  | n+1, toks =>
+    if sparse then
+      match toks with
+      | k :: rest =>
+        let k := k.toNat?.getD 0
+        let body := rest.take (2 * k)
+        match rest.drop (2 * k) with
+        | lab :: rest' =>
+          if body.length != 2 * k then none else
+          let ents := (chunks 2 body).map fun p => ((p.headD "0").toNat?.getD 0, parseVal (p.getD 1 "nan"))
+          (parseElems sparse dim n rest').map (((ents, lab)) :: ·)
+        | [] => none
+      | [] => none
+    else
+      let body := toks.take dim
+      match toks.drop dim with
+      | lab :: rest' =>
+        if body.length != dim then none else
+        (parseElems sparse dim n rest').map ((Export.denseEntries (body.map parseVal), lab) :: ·)
+      | [] => none
+
+def svmOp (fmt lab ty dims bs mode hex : String) : String :=
+  if mode == "S" then "safety-only" else
+  match dims.toNat?, bs.toNat? with
+  | some dims, some bs =>
+    let bytes := if hex == "-" then [] else unhex hex.toList
+    let f32 := ty == "f32"
+    let cfg : Svm.Cfg := { sparse := fmt == "s", cls := lab == "c", dims := dims, bs := bs,
+                           allocLimit := allocBytes / (if f32 then 4 else 8) }
+    -- the record reader twice: hand-written lexer and the PEG model of the same grammar must agree
+    if svmRecords bytes != svmRecordsPeg bytes then "model-inconsistency svmLine vs svmLineG" else
+    showOutcome f32 (Svm.importBytes cfg bytes)
+  | _, _ => "bad-op"
+
+def csvOp (kind ty lp nout sep comment maxB title mode hex : String) : String :=
+  if mode == "S" then "safety-only" else
+  match nout.toNat?, sep.toNat?, comment.toNat?, maxB.toNat?, title.toNat? with
+  | some nout, some sep, some comment, some maxB, some title =>
+    let bytes := if hex == "-" then [] else unhex hex.toList
+    let bytes := if kind == "u" then Csv.dropTitleLines title bytes else bytes
+    let f32 := ty == "f32"
+    let sep := Char.ofNat sep
+    let comment := Char.ofNat comment
+    if kind == "u" then showOutcome f32 (Csv.importRowsBytes bytes sep comment maxB)
+    else if kind == "r" then showOutcome f32 (Csv.importRegrBytes bytes (lp == "F") nout sep comment maxB)
+    else showOutcome f32 (Csv.importClassBytes bytes (lp == "F") sep comment maxB)
+  | _, _, _, _, _ => "bad-op"
+
 def step (line : String) : String :=
   let toks := (line.splitOn " ").filter (· ≠ "")
   match toks with
-  | ["svm", fmt, lab, ty, dims, bs, mode, hex] =>
-    if mode == "S" then "safety-only" else
-    match dims.toNat?, bs.toNat? with
-    | some dims, some bs =>
-      let bytes := if hex == "-" then [] else unhex hex.toList
-      let f32 := ty == "f32"
-      let cfg : Svm.Cfg := { sparse := fmt == "s", cls := lab == "c", dims := dims, bs := bs,
-                             allocLimit := allocBytes / (if f32 then 4 else 8) }
-      -- the record reader twice: hand-written lexer and the PEG model of the same grammar must agree
-      if svmRecords bytes != svmRecordsPeg bytes then "model-inconsistency svmLine vs svmLineG" else
-      match svmRecords bytes with
-      | none => "shark-exception"
-      | some recs =>
-        let recs := recs.map fun r => ({ label := r.1, feats := r.2 } : Svm.Rec Val)
-        showOutcome f32 (Svm.importRepaired Val.zero Val.toInt32 cfg recs)
-    | _, _ => "bad-op"
-  | ["csv", kind, ty, lp, nout, sep, comment, maxB, mode, hex] =>
-    if mode == "S" then "safety-only" else
-    match nout.toNat?, sep.toNat?, comment.toNat?, maxB.toNat? with
-    | some nout, some sep, some comment, some maxB =>
-      let bytes := if hex == "-" then [] else unhex hex.toList
-      let f32 := ty == "f32"
-      let sep := Char.ofNat sep
-      let comment := Char.ofNat comment
-      if kind == "u" then
-        match Csv.readRows bytes sep comment with
-        | none => "shark-exception"
-        | some rows => showOutcome f32 (Csv.importRows rows maxB)
-      else if kind == "r" then
-        match Csv.readRows bytes sep comment with
-        | none => "shark-exception"
-        | some rows => showOutcome f32 (Csv.importRegr rows (lp == "F") nout maxB)
-      else
-        match (if lp == "F" then Csv.readPointsFirst bytes sep comment else Csv.readPointsLast bytes sep comment) with
-        | none => "shark-exception"
-        | some pts => showOutcome f32 (Csv.importClass pts maxB)
-    | _, _, _, _ => "bad-op"
+  | ["svm", fmt, lab, ty, dims, bs, mode, hex] => svmOp fmt lab ty dims bs mode hex
+  | ["svmf", fmt, lab, ty, dims, bs, mode, hex] => svmOp fmt lab ty dims bs mode hex
+  | ["csv", kind, ty, lp, nout, sep, comment, maxB, mode, hex] => csvOp kind ty lp nout sep comment maxB "0" mode hex
+  | ["csvf", kind, ty, lp, nout, sep, comment, maxB, title, mode, hex] => csvOp kind ty lp nout sep comment maxB title mode hex
   | ["csv1", ty, comment, maxB, mode, hex] =>
     if mode == "S" then "safety-only" else
     match comment.toNat?, maxB.toNat? with
@@ -149,7 +198,7 @@ def step (line : String) : String :=
       | none => "shark-exception"
       | some evs =>
         let vals := evs.filterMap fun e => match e with
-          | .val v => some v
+          | .val v => some (if ty == "f32" then Val.toFloat32 v else v)
           | .int i => some (Val.ofInt i)
           | .mark => none
         match Csv.importScalars vals maxB with
@@ -164,16 +213,15 @@ def step (line : String) : String :=
       let ins := (List.range n).map fun e => (List.range dim).map fun j => rtCell seed e j
       if kind == "c" then
         let pts := (List.zip (List.range n) ins).map fun q => (rtLabel seed q.1, q.2)
-        let text := Export.csvClass pts first sep
-        match (if first then Csv.readPointsFirst text sep '#' else Csv.readPointsLast text sep '#') with
+        match Export.csvClass pts first sep true 0 with
         | none => "rt shark-exception"
-        | some back => rtVerdict (Csv.importClass back maxB) (pts.map fun p => Row.dense p.2) (.cls (pts.map (·.1)))
+        | some text =>
+          rtVerdict (Csv.importClassBytes text first sep '#' maxB) (pts.map fun p => Row.dense p.2) (.cls (pts.map (·.1)))
       else
         let outs := (List.range n).map fun e => (List.range nout).map fun j => rtCell (seed + 1) e j
-        let text := Export.csvRegr (List.zip ins outs) first sep
-        match Csv.readRows text sep '#' with
+        match Export.csvRegr (List.zip ins outs) first sep true 0 with
         | none => "rt shark-exception"
-        | some back => rtVerdict (Csv.importRegr back first nout maxB) (ins.map Row.dense) (.reg outs)
+        | some text => rtVerdict (Csv.importRegrBytes text first nout sep '#' maxB) (ins.map Row.dense) (.reg outs)
     | _, _, _, _, _, _ => "bad-op"
   | ["rt", "svm", _fmt, lab, bs, dim, seed, n] =>
     match bs.toNat?, dim.toNat?, seed.toNat?, n.toNat? with
@@ -182,13 +230,50 @@ def step (line : String) : String :=
       let cfg : Svm.Cfg := { sparse := false, cls := lab == "c", dims := dim, bs := bs, allocLimit := allocBytes / 8 }
       let labs := (List.range n).map (rtLabel seed)
       let regs := (List.range n).map fun e => rtCell (seed + 1) e 0
-      let text := if lab == "c" then Export.svmClass (List.zip labs ins) else Export.svmRegr (List.zip regs ins)
-      match svmRecords text with
-      | none => "rt shark-exception"
-      | some recs =>
-        let recs := recs.map fun r => ({ label := r.1, feats := r.2 } : Svm.Rec Val)
-        rtVerdict (Svm.importRepaired Val.zero Val.toInt32 cfg recs) (ins.map Row.dense)
-          (if lab == "c" then .cls labs else .reg (regs.map fun v => [v]))
+      let ents := ins.map Export.denseEntries
+      let text := if lab == "c" then Export.svmClass (List.zip labs ents) true false else Export.svmRegr (List.zip regs ents)
+      rtVerdict (Svm.importBytes cfg text) (ins.map Row.dense)
+        (if lab == "c" then .cls labs else .reg (regs.map fun v => [v]))
+    | _, _, _, _ => "bad-op"
+  | "xcsv" :: kind :: ty :: lp :: nout :: sep :: sci :: width :: maxB :: n :: dim :: vals =>
+    match nout.toNat?, sep.toNat?, width.toNat?, maxB.toNat?, n.toNat?, dim.toNat? with
+    | some nout, some sep, some width, some maxB, some n, some dim =>
+      let sep := Char.ofNat sep
+      let first := lp == "F"
+      let sci := sci == "1"
+      let f32 := ty == "f32"
+      let per := dim + (if kind == "c" then 1 else if kind == "r" then nout else 0)
+      if vals.length != n * per then "bad-op" else
+      let elems := if per = 0 then List.replicate n [] else chunks per vals
+      let ins := elems.map fun e => (e.take dim).map parseVal
+      let text : Option (List Char) :=
+        if kind == "u" then Export.csvRows ins sep sci width
+        else if kind == "c" then
+          Export.csvClass (elems.map fun e => (((e.drop dim).headD "0").toNat?.getD 0, (e.take dim).map parseVal)) first sep sci width
+        else Export.csvRegr (elems.map fun e => ((e.take dim).map parseVal, (e.drop dim).map parseVal)) first sep sci width
+      match text with
+      | none => "exp=shark-exception"
+      | some text =>
+        let o := if kind == "u" then Csv.importRowsBytes text sep '#' maxB
+          else if kind == "c" then Csv.importClassBytes text first sep '#' maxB
+          else Csv.importRegrBytes text first nout sep '#' maxB
+        s!"exp={hexOf text} imp={showOutcome f32 o}"
+    | _, _, _, _, _, _ => "bad-op"
+  | "xsvm" :: fmt :: lab :: ty :: dims :: bs :: omo :: srt :: app :: n :: dim :: vals =>
+    match dims.toNat?, bs.toNat?, n.toNat?, dim.toNat? with
+    | some dims, some bs, some n, some _dim =>
+      let f32 := ty == "f32"
+      let sparse := fmt == "s"
+      match parseElems sparse _dim n vals with
+      | none => "bad-op"
+      | some elems =>
+        let text1 :=
+          if lab == "c" then Export.svmClass (elems.map fun e => (e.2.toNat?.getD 0, e.1)) (omo == "1") (srt == "1")
+          else Export.svmRegr (elems.map fun e => (parseVal e.2, e.1))
+        let text := if app == "1" then text1 ++ text1 else text1
+        let cfg : Svm.Cfg := { sparse := sparse, cls := lab == "c", dims := dims, bs := bs,
+                               allocLimit := allocBytes / (if f32 then 4 else 8) }
+        s!"exp={hexOf text} imp={showOutcome f32 (Svm.importBytes cfg text)}"
     | _, _, _, _ => "bad-op"
   | [] => ""
   | _ => "bad-op"
